@@ -35,7 +35,7 @@ def project(t):
     return ("other", repr(t))
 
 
-WATCHDOG_BASE = 1.0      # seconds a single input may take before it is declared non-terminating (plus 0.5 ms per byte)
+WATCHDOG_BASE = 2.0      # CPU seconds a single input may take before it is declared non-terminating (plus 0.5 ms per byte)
 HANGS = 0
 
 
@@ -54,8 +54,10 @@ def real_tokens(data, B, limit=None):
     p = parser_class(B)(io.BytesIO(data))
     out = []
     budget = limit if limit is not None else 4 * len(data) + 16
-    old = signal.signal(signal.SIGALRM, _alarm)
-    signal.setitimer(signal.ITIMER_REAL, WATCHDOG_BASE + len(data) / 2000.0)
+    # the watchdog counts CPU time of this process (ITIMER_VIRTUAL), not wall-clock time: a loaded machine must not
+    # turn a slow but terminating call into a "hang"
+    old = signal.signal(signal.SIGVTALRM, _alarm)
+    signal.setitimer(signal.ITIMER_VIRTUAL, WATCHDOG_BASE + len(data) / 2000.0)
     try:
         while True:
             pos, t = p.nexttoken()
@@ -72,8 +74,8 @@ def real_tokens(data, B, limit=None):
     except BaseException as e:  # anything but end of input
         return out, type(e).__name__
     finally:
-        signal.setitimer(signal.ITIMER_REAL, 0)
-        signal.signal(signal.SIGALRM, old)
+        signal.setitimer(signal.ITIMER_VIRTUAL, 0)
+        signal.signal(signal.SIGVTALRM, old)
 
 
 def model_tokens(o):
